@@ -56,6 +56,21 @@ def r12_1(ctx):
                 "(an oversize datagram would be dropped or would overwrite them)", body=se, bb=bad[0][0], path=bad[0][1])
     else:
         ctx.ok(('socket_egress', 'idle-guard'), sample=dict(fn='socket_egress', guard='fragmenter idle before every socket dispatch'))
+    # per iteration: once one socket was dispatched (and may have filled the fragmenter), the next dispatch is
+    # again behind the guard - a check hoisted in front of the loop does not protect the second socket
+    g = guard_edges(F, se, idle_pred(F))     # base edges only: derived edges are relative to the function entry
+    again = None
+    for x in se.calls():
+        if x[0] in sites and x[4] is not None:
+            r = cut_sites(se, sites, g, start=x[4])
+            if r:
+                again = (x[0], r[0])
+                break
+    if again:
+        ctx.bad("socket_egress|fragmenter-busy|next-socket", "after one socket was dispatched the next socket is dispatched without re-checking that the "
+                "fragmenter is idle: a second oversize datagram in the same poll is dequeued and dropped", body=se, bb=again[1][0], path=again[1][1])
+    else:
+        ctx.ok(('socket_egress', 'idle-guard-per-iteration'), sample=dict(fn='socket_egress', guard='re-checked before every further socket'))
 
 
 @rule('R12.2', ['C12', 'C10'], floor=3, clause='fragment payload size is (MTU - header) rounded down to a multiple of 8; both fragment emitters use it; more-fragments is set exactly when bytes remain')
